@@ -45,6 +45,24 @@ theorem range2d_path_valid (entries : FlatST) (he : ∀ e ∈ entries, e.1.1 < e
     validFlatB (Merge2D.toST (Consistent2D.makeConsistent entries)) = true :=
   Merge2D.validFlatB_of_VF _ 0 none (Consistent2D.makeConsistent_spec entries he).1
 
+/-- **Every list of observations**, including an observation whose time range is empty (`tmin = tmax`: an instant
+    written as a range) or whose coverage is empty: `create_from_time_ranges_spatial_coverage` /
+    `create_from_time_ranges_positions` (repaired: such an observation is removed AS A WHOLE before the sweep) cover
+    exactly the union of the products and give a valid flat coverage — the only hypothesis left is that each
+    coverage is a canonical S-MOC.  Before /repo "fix: an empty time range shifted the positions of the following
+    observations" the time ranges alone were filtered, so that [5,5)@1, [10,20)@2, [30,40)@3 gave [10,20)x{1},
+    [30,40)x{2}; an empty coverage gave an element with an empty S-MOC. -/
+theorem range2d_path_all_observations (entries : FlatST) (he : ∀ e ∈ entries, Canon e.2) :
+    validFlatB (Merge2D.toST (Consistent2D.fromObservations entries)) = true ∧
+    ∀ t s, memST t s (Merge2D.toST (Consistent2D.fromObservations entries)) ↔
+      ∃ e ∈ entries, (e.1.1 ≤ t ∧ t < e.1.2) ∧ mem s e.2 := by
+  have sp := Consistent2D.fromObservations_spec entries he
+  refine ⟨Merge2D.validFlatB_of_VF _ 0 none sp.1, fun t s => ?_⟩
+  rw [Merge2D.memST_toST, sp.2 t s]
+  constructor
+  · rintro ⟨e, h, a, b, c⟩; exact ⟨e, h, ⟨a, b⟩, c⟩
+  · rintro ⟨e, h, ⟨a, b⟩, c⟩; exact ⟨e, h, a, b, c⟩
+
 /-- … and the set covered does not depend on the order of the observations nor on duplicates. -/
 theorem range2d_path_order_independent (a b : FlatST)
     (ha : ∀ e ∈ a, e.1.1 < e.1.2 ∧ Canon e.2 ∧ e.2 ≠ []) (hb : ∀ e ∈ b, e.1.1 < e.1.2 ∧ Canon e.2 ∧ e.2 ≠ [])
